@@ -14,6 +14,10 @@ def run_check(prop, tier, repo, seed, evidence_dir=None, quiet=False):
         ctx = report.Ctx(prop, tier, repo, seed=seed, evidence_dir=evidence_dir, quiet=quiet)
         mod = importlib.import_module("agstatic.rules.%s" % prop.lower())
         mod.run(ctx)
+        if not getattr(mod, "NO_HISTORY_PASS", False):
+            # shared pass: persistent state (module/class-level stores, caching decorators) in the call closure of the analysed functions
+            from . import statefx
+            statefx.check_sites(ctx)
         if tier == "thorough" and getattr(mod, "MUTATION_TARGETS", None) and not getattr(mod, "OWN_MUTATION_ADEQUACY", False):
             from . import adequacy
             adequacy.run(ctx, mod, prop, seed)
